@@ -104,6 +104,8 @@ func Worker(shard, n int, tier string) *engine.Result {
 		{"nil", nil}, {"empty", ethtypes.AccessList{}},
 		{"1addr0keys", ethtypes.AccessList{{Address: addr, StorageKeys: []common.Hash{}}}},
 		{"2addr3keys", ethtypes.AccessList{{Address: addr, StorageKeys: []common.Hash{{1}, {2}}}, {Address: zero, StorageKeys: []common.Hash{{3}}}}},
+		{"keys-then-nokeys", ethtypes.AccessList{{Address: addr, StorageKeys: []common.Hash{{1}}}, {Address: zero, StorageKeys: []common.Hash{}}, {Address: addr, StorageKeys: nil}}},
+		{"nokeys-then-keys", ethtypes.AccessList{{Address: zero, StorageKeys: []common.Hash{}}, {Address: addr, StorageKeys: []common.Hash{{4}, {5}}}}},
 	}
 	if tier == "thorough" {
 		amounts = append(amounts, new(big.Int).Lsh(big.NewInt(1), 128))
@@ -414,6 +416,29 @@ func checkCase(res *engine.Result, txConfig client.TxConfig, c txCase, key []byt
 				if re.UnmarshalBinary(tb) == nil {
 					if got, gerr := re.GetSender(c.chain); (gerr == nil) != (werr == nil) || got != want {
 						viol("msg-sender", "a refilled message reports the sender of the transaction it held before", map[string]any{"got": got.Hex(), "want": want.Hex()})
+					}
+				}
+			}
+		}
+	}
+	// a refused wrap leaves the message as it was: the same object is asked to take a transaction
+	// whose value does not fit 256 bits (legal RLP) - it must refuse, and what it holds afterwards
+	// must still be consistent (recorded hash == hash of the transaction it unwraps to)
+	{
+		over := c
+		over.value = new(big.Int).Lsh(big.NewInt(1), 256)
+		if bad, err := ethtypes.SignTx(over.build(), signer, priv); err == nil {
+			held := &evmtypes.MsgEthereumTx{}
+			if held.FromEthereumTx(tx) == nil {
+				if err := held.FromEthereumTx(bad); err == nil {
+					viol("wrap-overflow", "a transaction whose value exceeds 256 bits was wrapped", nil)
+				} else if held.Hash != held.AsTransaction().Hash().Hex() {
+					viol("refused-wrap-hash", "after a refused wrap the hash recorded in the message differs from the hash of the transaction it holds", map[string]any{"recorded": held.Hash, "holds": held.AsTransaction().Hash().Hex()})
+				}
+				if bb, err := bad.MarshalBinary(); err == nil {
+					held2 := &evmtypes.MsgEthereumTx{}
+					if held2.FromEthereumTx(tx) == nil && held2.UnmarshalBinary(bb) != nil && held2.Hash != held2.AsTransaction().Hash().Hex() {
+						viol("refused-wrap-hash", "after a refused UnmarshalBinary the hash recorded in the message differs from the hash of the transaction it holds", nil)
 					}
 				}
 			}
